@@ -32,7 +32,9 @@ func header(in string) bool {
 	p, e := in[:len(in)-1], in[len(in)-1]
 	switch e {
 	case '.', ':', ')':
-		if listMarker[p] {
+		// Normalize keeps the case of a word's first letter, so fold it: a
+		// marker like "A." has to be dropped there just as it is when matching.
+		if listMarker[strings.ToLower(p)] {
 			if e != ')' {
 				return true
 			}
